@@ -555,6 +555,12 @@ func runC17(cfg *vc.Config, rep *vc.Report) {
 		if ps == 0 {
 			ps = 1
 		}
+		if r.Chance(1, 12) { // page sizes above the default maximum of 100 (API v1 accepts up to 1000; direct callers any size)
+			n = r.Range(90, 420)
+			ids = makeIDs(r, n, style)
+			ps = vc.Pick(r, []int{99, 100, 101, 128, 150, 250, 400, 1000})
+			rep.Inc("walks_with_page_size_over_100_candidates")
+		}
 		rep.Current(map[string]any{"index": i, "n": n, "page_size": ps, "style": styleName})
 		switch r.Intn(4) {
 		case 0:
@@ -563,8 +569,8 @@ func runC17(cfg *vc.Config, rep *vc.Report) {
 			directOffsetWalk(rep, i, ids, ps, styleName)
 		default:
 			ep := vc.Pick(r, listEndpoints)
-			if ps > 100 {
-				ps = 100
+			if ps > 100 && ep.v2 {
+				ps = 100 // v2 clamps the page size
 			}
 			f := vc.Pick(r, ep.filters)
 			if r.Chance(1, 3) {
